@@ -377,7 +377,7 @@ func (vc *VC) strLit(s string) Term {
 	t := raw(name, "Str")
 	// length and (for short literals) characters; distinctness from other literals
 	vc.decls = append(vc.decls, fmt.Sprintf("(assert (= (gs.len %s) %s))", name, vc.idx(int64(len(s))).S))
-	if len(s) <= 64 {
+	if len(s) <= 256 {
 		for i := 0; i < len(s); i++ {
 			vc.decls = append(vc.decls, fmt.Sprintf("(assert (= (gs.at %s %s) %s))", name, vc.idx(int64(i)).S, vc.ar.Lit64(int64(s[i]), IntKind{8, false}).S))
 		}
@@ -389,6 +389,37 @@ func (vc *VC) strLit(s string) Term {
 	}
 	vc.strLits[s] = t
 	return t
+}
+
+// litTable is the contents of a string literal as an SMT array term.
+func (vc *VC) litTable(lit string) Term {
+	cnt := map[byte]int{}
+	best := lit[0]
+	for i := 0; i < len(lit); i++ {
+		cnt[lit[i]]++
+		if cnt[lit[i]] > cnt[best] {
+			best = lit[i]
+		}
+	}
+	bk := IntKind{8, false}
+	as := arraySort(vc.ar.IdxSort(), vc.ar.Sort(bk))
+	t := vc.constArray(as, vc.ar.Lit64(int64(best), bk))
+	for i := 0; i < len(lit); i++ {
+		if lit[i] != best {
+			t = Store(t, vc.idx(int64(i)), vc.ar.Lit64(int64(lit[i]), bk))
+		}
+	}
+	return t
+}
+
+// litOf reports the Go string a literal term stands for.
+func (vc *VC) litOf(t Term) (string, bool) {
+	for s, lt := range vc.strLits {
+		if lt.S == t.S {
+			return s, true
+		}
+	}
+	return "", false
 }
 
 func (vc *VC) tid(t types.Type) Term {
